@@ -29,7 +29,7 @@ RULE = ("models: (i) to_model_proto() and to_function_proto() of generated scrip
         "for / while / for+cond form, nesting, omitted optional inputs, attribute kinds, constants nan/inf/negative/0-d/1-d/empty/"
         "size>4/int8/double/bool/uint8/float16/string, value_* constants, name stress: dotted, leading digit, keywords, names that "
         "collide after clean-up, names shadowing the generated imports, names equal to attribute names, v<N> names, dotted graph "
-        f"I/O, multi-output ops, no graph inputs); (iii) {len(G.OUTSIDE_STRATA)} models outside the class (sequence values / "
+        f"I/O, multi-output ops, no graph inputs, literal FLOAT attributes without a short decimal spelling (tiny / subnormal / huge / 1/3-like) observed bit-exactly, graph inputs and outputs with a zero-sized dimension); (iii) {len(G.OUTSIDE_STRATA)} models outside the class (sequence values / "
         "sequence outputs, Scan, sparse initializer, graph attribute on another op). Every model passes onnx.checker (full) and runs "
         "on ORT on 3 inputs before use; every DAG with graph inputs is additionally exported as a FunctionProto (main graph as "
         "function body, initializers as Constant nodes) so that rename=True is exercised past the signature. All 16 (rename, "
